@@ -227,7 +227,9 @@ def build_family(tier, checks, kinds=('String', 'Purl'), name_prefix=''):
 
     def add(T, ty, name, steps, via='ctor'):
         txt = show_steps(ty, name, steps)
-        if via != 'ctor':
+        if via == 'parsed':
+            txt = "parse('pkg:%s/ns/n@1?a=1&c=3#s').into_builder()" % ty + txt[txt.index(')') + 1:]
+        elif via != 'ctor':
             txt = txt.replace('new(', 'GenericPurl::%s(' % via, 1)
         qs.append(Query('%s%s %s' % (name_prefix, T, txt), h_built,
                         {'T': T, 'ty': ty, 'name': name, 'steps': steps, 'checks': checks, 'via': via},
@@ -255,6 +257,13 @@ def build_family(tier, checks, kinds=('String', 'Purl'), name_prefix=''):
         if T != 'Purl':
             for n in lens(m):
                 add(T, ('hole', 'h', n), 'n', [])
+        if T in ('String', 'Purl', 'SmallString'):
+            # edit-and-rebuild: `pkg:<type>/ns/n@1?a=1&c=3#s` parsed, turned back into a builder, one field changed
+            h2 = ('hole', 'h', 2)
+            for meth in ('with_namespace', 'with_name', 'with_version', 'with_subpath'):
+                add(T, ty, 'n', [(meth, h2)], via='parsed')
+            add(T, ty, 'n', [('with_qualifier', ('hole', 'h', 1), ('hole', 'g', 1))], via='parsed')
+            add(T, ty, 'n', [('without_qualifier', ('hole', 'h', 1))], via='parsed')
         if T == kinds[0] or th:
             # many qualifiers, then removal / override with a free key (positions at which a vector-backed map can go wrong)
             MANY = [('with_qualifier', k, v) for k, v in (('c', '1'), ('a', '2'), ('e', '3'), ('b', '4'), ('d', '5'))]
